@@ -279,6 +279,19 @@ def Bucket.getByPrefix (tx : Tx) (b : Bucket) (pfx : Bytes) : List (Bytes × Byt
   let part2 := if tx.readOnly then [] else (tx.b.netPuts innerPrefix).filter fun e => !seen.contains e.1
   (part1 ++ part2).map fun e => (e.1.drop (b.pathLen + 1), e.2)
 
+/-- the loop `for _, subname := range subnames { sub := b.Bucket(subname); if sub == nil { continue };
+    err = deleteBucket(sub); if err != nil { return err } }` with the recursive call as a parameter -/
+def deleteSubs (db : Store) (recur : Bucket → Batch → Except Err Batch) (b : Bucket) :
+    List Bytes → Batch → Except Err Batch
+  | [], bt => .ok bt
+  | subname :: rest, bt =>
+    match b.bucket { readOnly := false, db := db, b := bt } subname with
+    | none => deleteSubs db recur b rest bt
+    | some sub =>
+      match recur sub bt with
+      | .error e => .error e
+      | .ok bt' => deleteSubs db recur b rest bt'
+
 /-- deleteBucket (recursive over sub buckets; `fuel` bounds the nesting depth) -/
 def deleteBucketAux (db : Store) : Nat → Bucket → Batch → Except Err Batch
   | 0, _, _ => .error .fuel
@@ -287,11 +300,7 @@ def deleteBucketAux (db : Store) : Nat → Bucket → Batch → Except Err Batch
     else match b.bucketNames { readOnly := false, db := db, b := bt } with
       | .error e => .error e
       | .ok subnames =>
-        let r := subnames.foldlM (m := Except Err) (fun bt subname =>
-            match b.bucket { readOnly := false, db := db, b := bt } subname with
-            | none => pure bt
-            | some sub => deleteBucketAux db fuel sub bt) bt
-        match r with
+        match deleteSubs db (deleteBucketAux db fuel) b subnames bt with
         | .error e => .error e
         | .ok bt1 =>
           let bt2 := clearRange db bt1 (join [b.path, []])
